@@ -78,7 +78,7 @@ def vhdx_spec(draw, tier="quick", layer=0, geometry=None, has_parent=False):
         "block_size": bs, "sector_size": ss, "size": size, "seq": seq, "bad_other_header": draw(st.sampled_from([False, False, True])),
         "regions": {"metadata": meta_mb, "bat": bat_off_mb}, "region_order": draw(st.sampled_from(["mb", "bm"])),
         "meta_order": draw(st.permutations(list(range(5)))), "meta_gap": draw(st.sampled_from([0, 0, 4, 100])),
-        "blocks": blocks, "layer": layer, "data_end_mb": base + unaligned + (max(slots, default=-1) + 1) * (bmb + pad),
+        "blocks": blocks, "layer": layer, "leave_allocated": draw(st.sampled_from([False, False, True])), "data_end_mb": base + unaligned + (max(slots, default=-1) + 1) * (bmb + pad),
     }
 
 
